@@ -14,6 +14,11 @@ LIB_STAGES = {
 }
 
 PROPS = {
+    "C01": dict(level="proof", claim="dev", note="", stages=LIB_STAGES, props={}, rule="dev"),
+    "C02": dict(level="proof", claim="dev", note="", stages=LIB_STAGES, props={}, rule="dev"),
+    "C06": dict(level="proof", claim="dev", note="", stages=LIB_STAGES, props={}, rule="dev"),
+    "C07": dict(level="proof", claim="dev", note="", stages=LIB_STAGES, props={}, rule="dev"),
+    "NORM": dict(level="proof", claim="development stage", note="", stages=LIB_STAGES, props={"1":"fixpoint","2":"skeleton","3":"well nested","4":"identity"}, rule="dev"),
     "LIB": dict(level="proof", claim="development stage", note="", stages=LIB_STAGES, props={}, rule="dev"),
     "C15": dict(
         level="proof",
